@@ -56,7 +56,7 @@ try:
         rc, tail, err = run_demo()
         res["demo_with_patch"] = {"rc": rc, "tail": tail, "err": err}
     res["confirmed"] = bool(res.get("patch_applies") and res["demo_on_unmodified"]["rc"] == 0 and res.get("suite_with_patch", {}).get("rc") == 0 and
-                            res.get("suite_with_patch", {}).get("passed") == 110 and res.get("demo_with_patch", {}).get("rc", 0) != 0)
+                            res.get("suite_with_patch", {}).get("passed", 0) >= 110 and res.get("demo_with_patch", {}).get("rc", 0) != 0)
 finally:
     shutil.rmtree(scratch, ignore_errors=True)
 print(json.dumps(res, indent=1))
